@@ -133,3 +133,25 @@ claim('C05', 'model_checking',
       'corpus programs are re-executed by the spec machine inside TLC.',
       'trusts TLC and the transcription of DWARF 6.2; LEB operands <= 5 bytes; CU and line program share format/address size/version',
       'DESIGN.md 5/C05')
+claim('C03', 'model_checking',
+      'TLA+ symbol-table writer, string-table builder, SysV and GNU hash builders and the lookup/count reader machines in 16-bit limb arithmetic '
+      '(spec/SymHash.tla, HashWalk.tla) model-checked by TLC (LookupSound, LookupComplete, CountExact, ChainProgress, SymRoundTrip); emitted ELF '
+      'images replayed into SymbolTableSection/ELFHashSection/GNUHashSection; corpus hash tables validated as traces on their raw bytes '
+      '(spec/trace/SymHashTrace.tla)',
+      'TLC enumerates symbol tables (duplicate/empty/UTF-8/70-byte names, every st_info/st_other value, reserved section indices, SHN_XINDEX '
+      'companions, syminfo) x 4 class/byte-order combinations x SysV nbucket and GNU nbuckets/symoffset/bloom/shift parameters x every query name '
+      '(present, absent, hash- and bucket-colliding) and checks soundness/completeness/counts of the reader machines on the specification; each image '
+      'is replayed; 61 corpus hash tables are re-walked inside TLC for 5k-12k queries.',
+      'trusts TLC and the transcription of gABI fig. 5-13, the GNU hash format description and Elf_Sym layouts; count exactness is not asserted '
+      'for GNU hash tables with no populated bucket (the format does not determine the count there)', 'DESIGN.md 5/C03')
+claim('C02', 'model_checking',
+      'TLA+ geometry module (spec/Geometry.tla): transcription of the strict section-in-segment macro vs an independent interval formulation, '
+      'AddressOffsets over PT_LOAD layouts, the chunked string reader vs the declarative C string, data paths with zlib stored-block streams and '
+      'Adler-32 written by the specification; model-checked by TLC (MacroEqGeometric, ChunkedEqDeclarative, DeflateRoundTrip, '
+      'OffsetsInsideSegments); emitted images replayed into Section.data/get_string/address_offsets/section_in_segment/Segment.data',
+      'TLC enumerates the complete geometry grid (12 segment types x TLS/ALLOC/NOBITS x displacements -1..+4 x sizes 0..3 x filesz/memsz classes: '
+      '276k section/segment pairs), three PT_LOAD layouts x 115 ranges, strings of every length class around the 64-byte read chunk at four section '
+      'alignments, sizes {0,1,63,64,65,300,4096,70000} x raw/NOBITS/Chdr32/Chdr64 x valid, bad-size and unknown-type compression; every pair/query '
+      'is a conformance case; compressed payloads are additionally recompressed at zlib levels 1/6/9.',
+      "trusts TLC, the transcription of binutils' macro (clause groups the property names), Python zlib for the recompression variants",
+      'DESIGN.md 5/C02')
